@@ -95,6 +95,16 @@ def run(rep: Report, tier: str) -> None:
             c10.missing_bound(rep, rf, m, fi, "to", f"{qual}: to-date applied on the entry's calendar date", "the report generators iterate rows that were never numbered (KeyError in get_taxable_event_fraction) or the reverse")
         for c in comps:
             c10._judge(rep, rf, m, fi, c)
+    rh = rep.rule("C16.h", "a valid input is not rejected: overdraft test exact and in time order (C08.a,b,d), no lot lost or hidden from the matcher (heap typestate, schedule traversal, time-ordered input)", floor=12)
+    from . import c08
+    from .. import engine
+
+    sub8 = Report("C08", tier)
+    c08.run(sub8, tier)
+    rep.absorb(sub8, rh, ("C08.a", "C08.b", "C08.d"), "overdraft test")
+    engine.check_heap_typestate(rep, rh)
+    engine.check_schedule_traversal(rep, rh)
+    engine.check_chronological_input(rep, rh)
     rg = rep.rule("C16.g", "default options are accepted: -m defaults to 'not given'; conflict check unchanged", floor=2)
     _check_m_default(rep, rg, m)
 
